@@ -139,6 +139,13 @@ def c17_2(ctx, R="C17.2"):
         # atoms hashed with tree_hash_atom
         atoms = [bi for bi, name, t in b.calls() if name == TH + "tree_hash_atom"]
         ctx.ob(R, "atoms:" + fn_, len(atoms) == 2, "buffer atoms and large small-ints are hashed with tree_hash_atom", found=len(atoms))
+        # ... and what is hashed is the allocator's own byte view of the popped node (the Buffer payload, or a.atom(node) for
+        # small integers outside the precomputed table): no locally re-derived encoding of the integer value
+        argsv = sorted(show(strip_all(b.operand_term(t["args"][0]))) for bi, name, t in b.calls() if name == TH + "tree_hash_atom")
+        popped = "((Vec::pop(boxed::box_assume_init_into_vec_unsafe(Box::new_uninit())) as Some).0 as SExp).0"
+        want_args = sorted(["(Allocator::node(a, %s) as Buffer).0" % popped, "Allocator::atom(a, %s)" % popped])
+        ctx.ob(R, "atom-bytes:" + fn_, argsv == want_args,
+               "%s hashes the allocator's bytes of the node itself (Buffer payload / a.atom(node))" % fn_, found=[x[-70:] for x in argsv])
         # result: hashes[0] after assert len == 1
         ctx.sample({"rule": R, "fn": fn_, "ops_pushes": pushes})
     if len(shapes) == 2:
